@@ -126,6 +126,75 @@ theorem builtin_fns_never_relock :
 
 example : noRelock [.acq .blocking .unwrap .self_, .acq .blocking .unwrap .other] [] false = false := by decide
 
+/-- `mayAlias` is sound: targets it separates are different mutexes under every admissible assignment. -/
+theorem mayAlias_sound (ρ : Tgt → Nat) (hρ : RhoOk ρ) (d : Bool) (hd : d = true → ρ .self_ ≠ ρ .other)
+    (a b : Tgt) (h : mayAlias d a b = false) : ρ a ≠ ρ b := by
+  have h1 := hρ.fresh_self; have h2 := hρ.fresh_other; have h3 := hρ.fresh_lo; have h4 := hρ.fresh_hi
+  have hl := hρ.lohi
+  cases d with
+  | false => cases a <;> cases b <;> simp_all [mayAlias] <;> omega
+  | true =>
+    have hd' := hd rfl
+    cases a <;> cases b <;> simp_all [mayAlias] <;> omega
+
+/-- **noRelock_sound**: if the static check passes for the events of a call,
+    then under EVERY admissible assignment of its targets to mutexes the call
+    never acquires a mutex it still holds (so a blocking `lock()` in it can
+    only ever wait for another thread, never for itself). -/
+theorem noRelock_sound (ρ : Tgt → Nat) (hρ : RhoOk ρ) :
+    ∀ (evs : List Ev) (held : List Tgt) (heldM : List Nat) (d : Bool),
+      (d = true → ρ .self_ ≠ ρ .other) → heldM.Nodup → (∀ m ∈ heldM, ∃ h ∈ held, ρ h = m) →
+      noRelock evs held d = true → heldOk (callActs ρ evs) heldM = true := by
+  intro evs
+  induction evs with
+  | nil => intros; simp [callActs, heldOk]
+  | cons e r ih =>
+    intro held heldM d hd hnd himg h
+    cases e with
+    | acq k f t =>
+      simp only [noRelock, Bool.and_eq_true, Bool.not_eq_true', List.any_eq_false] at h
+      obtain ⟨hna, hr⟩ := h
+      have hnot : ρ t ∉ heldM := by
+        intro hm
+        obtain ⟨x, hx, hxe⟩ := himg _ hm
+        have := hna x hx
+        exact mayAlias_sound ρ hρ d hd t x (by simpa using this) hxe.symm
+      simp only [callActs, heldOk, Bool.and_eq_true, Bool.not_eq_true', List.contains_eq_mem, decide_eq_false_iff_not]
+      refine ⟨hnot, ih (t :: held) (ρ t :: heldM) d hd (List.nodup_cons.mpr ⟨hnot, hnd⟩) ?_ hr⟩
+      intro m hm
+      rcases List.mem_cons.mp hm with rfl | hm
+      · exact ⟨t, by simp, rfl⟩
+      · obtain ⟨x, hx, hxe⟩ := himg _ hm
+        exact ⟨x, by simp [hx], hxe⟩
+    | rel t =>
+      simp only [noRelock] at h
+      simp only [callActs, heldOk]
+      refine ih (held.erase t) (heldM.erase (ρ t)) d hd (hnd.erase _) ?_ h
+      intro m hm
+      have hm' := (hnd.mem_erase_iff).mp hm
+      obtain ⟨x, hx, hxe⟩ := himg _ hm'.2
+      have hxt : x ≠ t := by
+        intro e; subst e; exact hm'.1 hxe.symm
+      exact ⟨x, (List.mem_erase_of_ne hxt).mpr hx, hxe⟩
+    | distinctOrReturn =>
+      simp only [noRelock] at h
+      simp only [callActs]
+      split
+      · simp [heldOk]
+      · next hne => exact ih held heldM true (fun _ => hne) hnd himg h
+
+/-- Every call of a function compiled code reaches — on any lists, aliased or
+    not — never acquires a mutex it still holds. -/
+theorem builtin_calls_never_self_acquire (f : LockFn) (hf : f ∈ LockFn.all) (hr : f.reachedByBuiltins = true)
+    (ρ : Tgt → Nat) (hρ : RhoOk ρ) : heldOk (callActs ρ f.events) [] = true :=
+  noRelock_sound ρ hρ f.events [] [] false (by simp) List.nodup_nil (by simp)
+    (builtin_fns_never_relock f hf hr)
+
+-- `l.concat(l)`: self = other = 5, the new list is 9: the call never holds 5 twice
+example : heldOk (callActs (fun t => if t = .fresh then 9 else 5) (LockFn.ErasedList_concat).events) [] = true := by decide
+-- …whereas keeping `self` locked while locking `other` would
+example : heldOk (callActs (fun _ => 5) [.acq .blocking .unwrap .self_, .acq .blocking .unwrap .other]) [] = false := by decide
+
 /-! ### lock order: a call that holds two lists takes them in address order -/
 
 /-- Every function compiled code reaches holds at most one list that other
